@@ -28,7 +28,31 @@ func init() {
 	enc := json.NewEncoder(f)
 	ids := map[Collection]int{}
 	var seq uint64
+	sids := map[*Store]int{}
 	VerifTracer = func(info VerifInfo) {
+		if info.Store != nil {
+			// footer swaps of every store (validated against TraceStore.tla)
+			mu.Lock()
+			defer mu.Unlock()
+			id, ok := sids[info.Store]
+			if !ok {
+				id = len(sids) + 1
+				sids[info.Store] = id
+			}
+			seq++
+			splice := 0
+			if len(info.Extra) > 0 {
+				if n, ok := info.Extra[0].(int); ok {
+					splice = n
+				}
+			}
+			enc.Encode(map[string]interface{}{
+				"seq": seq, "point": info.Point, "s": id, "file": info.FileName,
+				"pos": info.FooterPos, "prev": info.PrevPos, "nsl": info.NumSlocs,
+				"pers": info.Persists, "comp": info.Compacts, "comppt": info.CompactsPt, "splice": splice,
+			})
+			return
+		}
 		if info.Coll == nil {
 			return
 		}
